@@ -17,7 +17,7 @@ theorem iterL_reg_post (dp : Path) (dest : Str) (o : Opts) (hd : CleanAbs dest) 
     (hnwh : hasPrefix (base (join dest (clean e.name))) whPrefix = false)
     (hne : pathComps (join dest (clean e.name)) ≠ dp)
     (st' : LState) (w' : World) (hrun : (layerIterP dest o e st).run w = (.ok st', w')) :
-    st'.dirs = st.dirs ∧ LW dp w' ∧ ∃ e' i n, remapE o e = some e' ∧
+    (st'.dirs = st.dirs ∧ st'.unpacked = join dest (clean e.name) :: st.unpacked) ∧ LW dp w' ∧ ∃ e' i n, remapE o e = some e' ∧
       w'.fs.lookup (pathComps (join dest (clean e.name))) = some i ∧
       (∀ q, w'.fs.lookup q = some i → q = pathComps (join dest (clean e.name))) ∧
       w'.fs.inode i = some n ∧ RegFinal e' o n := by
@@ -92,7 +92,7 @@ theorem iterL_reg_post (dp : Path) (dest : Str) (o : Opts) (hd : CleanAbs dest) 
             injection hrun with h1 h2
             injection h1 with h1
             subst h2
-            refine ⟨by rw [← h1], ?_⟩
+            refine ⟨⟨by rw [← h1], by rw [← h1]⟩, ?_⟩
             rcases hnone (by simpa using hre) with hn | ⟨er, her⟩
             · have hT := createTarFile_reg_exact dp p dest e' o hp hty w2 ⟨hw2, hn⟩ hout
               obtain ⟨⟨hw3, i, n, hl, hi, hfin⟩, _⟩ := hT
